@@ -296,11 +296,21 @@ func genVec(r *Rand, n int, tier string, w *bufio.Writer) {
 				for i := range ids {
 					nvs[i] = fmt.Sprintf("%d:%d", ids[i], []uint64{1, 1, 5, 9}[r.Intn(4)])
 				}
+				// ... or to a larger set (validators that create no events join): more branches than before
+				if r.Chance(1, 2) {
+					for x := 1 + r.Intn(3); x > 0; x-- {
+						nvs = append(nvs, fmt.Sprintf("%d:%d", 50+x, []uint64{1, 2, 7}[r.Intn(3)]))
+					}
+				}
 				fmt.Fprintf(w, "revals %d %s\n", k, strings.Join(nvs, " "))
 				for _, e := range all {
 					fmt.Fprintf(w, "add %d %d\n", k, e.n)
 				}
 				for q := 0; q < 3*len(all); q++ {
+					if q%4 == 3 {
+						fmt.Fprintf(w, "hb %d %d\n", k, all[r.Intn(len(all))].n)
+						continue
+					}
 					fmt.Fprintf(w, "fc %d %d %d\n", k, all[r.Intn(len(all))].n, all[r.Intn(len(all))].n)
 				}
 			}
